@@ -718,6 +718,27 @@ pub fn self_check() -> Result<u64, String> {
     let (st, _) = run(enc_r(5, 6, 0, 0, 0x1a), None, true, &|s| { s.gpr[5] = (-7i32) as u32; s.gpr[6] = 2 });
     expect!(st.lo == (-3i32) as u32 && st.hi == (-1i32) as u32, "div -7/2");
 
+    // more vectors from falcon's tests: div, msub, mul, mult, multu, swl / swr (big-endian)
+    let (st, _) = run(0x0085_001a, None, true, &|s| { s.gpr[4] = 19; s.gpr[5] = 4 });
+    expect!(st.lo == 4 && st.hi == 3, "div 19/4");
+    let (st, _) = run(0x0085_001a, None, true, &|s| { s.gpr[4] = 0xffff_ffec; s.gpr[5] = 4 });
+    expect!(st.lo == 0xffff_fffb && st.hi == 0, "div -20/4");
+    let (st, _) = run(0x7085_0004, None, true, &|s| { s.gpr[4] = 5; s.gpr[5] = 10; s.lo = 1; s.hi = 2 });
+    expect!(st.lo == 0xffff_ffcf && st.hi == 1, "msub: accumulator - product");
+    let (st, _) = run(0x70a6_2002, None, true, &|s| { s.gpr[5] = 7; s.gpr[6] = 11 });
+    expect!(st.gpr[4] == 77 && st.hilo_unpredictable, "mul");
+    let (st, _) = run(0x0085_0018, None, true, &|s| { s.gpr[4] = 0xffff_ffff; s.gpr[5] = 2 });
+    expect!(st.hi == 0xffff_ffff && st.lo == 0xffff_fffe, "mult -1*2");
+    let (st, _) = run(0x0085_0019, None, true, &|s| { s.gpr[4] = 0xffff_ffff; s.gpr[5] = 2 });
+    expect!(st.hi == 1 && st.lo == 0xffff_fffe, "multu 0xffffffff*2");
+    // swl $a0,0($a1) at 0x12 over 11223344 -> 1122aabb ; at 0x11 -> 11aabbcc ; swr at 0x15 over 55667788 -> ccdd7788
+    let (st, _) = run(0xa8a4_0000, None, true, &|s| { s.mem.write(0x10, 4, 0x1122_3344, true); s.gpr[4] = 0xaabb_ccdd; s.gpr[5] = 0x12 });
+    expect!(st.mem.clone().read(0x10, 4, true) == 0x1122_aabb, "swl be +2");
+    let (st, _) = run(0xa8a4_0000, None, true, &|s| { s.mem.write(0x10, 4, 0x1122_3344, true); s.gpr[4] = 0xaabb_ccdd; s.gpr[5] = 0x11 });
+    expect!(st.mem.clone().read(0x10, 4, true) == 0x11aa_bbcc, "swl be +1");
+    let (st, _) = run(0xb8a4_0000, None, true, &|s| { s.mem.write(0x14, 4, 0x5566_7788, true); s.gpr[4] = 0xaabb_ccdd; s.gpr[5] = 0x15 });
+    expect!(st.mem.clone().read(0x14, 4, true) == 0xccdd_7788, "swr be +1");
+
     // --- algebraic identities over a sweep of values ---
     let vals: [u32; 8] = [0, 1, 0x7fff_ffff, 0x8000_0000, 0xffff_ffff, 0x1234_5678, 0xdead_beef, 0x0000_ffff];
     // LWL∘LWR reassembles an unaligned word in both endiannesses; SWL∘SWR stores one
